@@ -72,7 +72,7 @@ func (g *Gen) stmt(o *out, sc *Scope, depth int) {
 		g.stat("y")
 		o.line("y(%d)", g.yk)
 	}
-	k := g.n(35)
+	k := g.n(36)
 	if depth <= 0 && k >= 8 && k <= 17 {
 		k = g.n(8)
 	}
@@ -150,6 +150,8 @@ func (g *Gen) stmt(o *out, sc *Scope, depth int) {
 		g.argOrderStmt(o, sc)
 	case 28:
 		g.divStmt(o, sc)
+	case 30:
+		g.flatSwitchStmt(o, sc)
 	case 29:
 		// functions whose named results are shadowed at their return statements
 		a := g.expr(g.U.TI, sc, 1)
@@ -1106,4 +1108,72 @@ func (g *Gen) divStmt(o *out, sc *Scope) {
 	o.line("%s := id(%s) %s id(%s)", name, g.lit(t), []string{"/", "%"}[g.n(2)], b)
 	g.declare(sc, name, t)
 	g.stat("div-may-panic")
+}
+
+// flatSwitchStmt: a switch (or nested loop) that is translated in its plain form sits in a
+// loop that is translated as a state machine (because of a goto, or a suspension point): break
+// and continue inside it leave exactly the statement they name.
+func (g *Gen) flatSwitchStmt(o *out, sc *Scope) {
+	if g.Opt.NoGoto && !g.Opt.Yield {
+		g.assign(o, sc)
+		return
+	}
+	cnt, iv := g.newName(sc), g.newName(sc)
+	for iv == cnt {
+		iv = g.newName(sc)
+	}
+	o.line("%s := I(0)", cnt)
+	o.line("for %s := I(0); %s < 4; %s++ {", iv, iv, iv)
+	switch g.n(3) {
+	case 0:
+		o.line("\tswitch {")
+		o.line("\tcase %s == 1:", iv)
+		o.line("\t\t%s += 10", cnt)
+		o.line("\t\tbreak")
+		o.line("\tcase %s == 2:", iv)
+		o.line("\t\tif %s > 0 {", cnt)
+		o.line("\t\t\tbreak")
+		o.line("\t\t}")
+		o.line("\t\t%s += 1000", cnt)
+		o.line("\tdefault:")
+		o.line("\t\t%s++", cnt)
+		o.line("\t}")
+	case 1:
+		o.line("\tswitch %s {", iv)
+		o.line("\tcase 0, 3:")
+		o.line("\t\t%s += 7", cnt)
+		o.line("\tcase 1:")
+		o.line("\t\tcontinue")
+		o.line("\tdefault:")
+		o.line("\t\tbreak")
+		o.line("\t}")
+	default:
+		o.line("\tfor j := I(0); j < 3; j++ {")
+		o.line("\t\tif j == %s {", iv)
+		o.line("\t\t\tbreak")
+		o.line("\t\t}")
+		o.line("\t\tif j == 1 {")
+		o.line("\t\t\tcontinue")
+		o.line("\t\t}")
+		o.line("\t\t%s += j + 1", cnt)
+		o.line("\t}")
+	}
+	o.line("\t%s += 100", cnt)
+	if g.Opt.Yield && g.n(2) == 0 {
+		g.yk++
+		o.line("\ty(%d)", g.yk)
+	} else if !g.Opt.NoGoto {
+		g.nlab++
+		o.line("\tif %s < 0 {", cnt)
+		o.line("\t\tgoto G%d", g.nlab)
+		o.line("\t}")
+		o.line("G%d:", g.nlab)
+		o.line("\t%s += 0", cnt)
+	} else {
+		g.yk++
+		o.line("\ty(%d)", g.yk)
+	}
+	o.line("}")
+	o.line("emit(\"fsw\", itoa(int(%s)))", cnt)
+	g.stat("flat-switch")
 }
